@@ -54,6 +54,13 @@ CHECKS = {
              "known findings with excluded classes.",
         design="4/C06",
         note="Trusted base: vf/pyscope.py (definite-assignment analysis over Python's own ast), the supplied-name rule stated in the property, Hypothesis, CPython."),
+    "C07": dict(
+        technique="property-based testing (Hypothesis): generated executable specifications x inputs, executed on a reference model; invariant over the final namespace (name/rank-id agreement, output binding vs dense evaluation, deep snapshot equality of every supplied tensor)",
+        text="Generated-input search over every executable specification family; after the emitted program ran on the reference model (which "
+             "models aliasing: views share data, transformations copy) the final global namespace is inspected: names must spell rank ids, "
+             "outputs must sit under their declared/rank-order names in original coordinates, and every user-supplied tensor object and "
+             "name must be unchanged (deep snapshot incl. explicit zeros).",
+        design="4/C07"),
 }
 
 NOT_APPLICABLE = {}
